@@ -4,6 +4,7 @@ import (
 	"encoding/hex"
 	"fmt"
 	"os"
+	"runtime/debug"
 	"strings"
 	"time"
 )
@@ -38,14 +39,27 @@ func Hex(b []byte, max int) string {
 // limit fired; the caller records that as inconclusive, never as a violation.
 func Watchdog(d time.Duration, f func()) bool {
 	done := make(chan struct{})
+	var (
+		pval  any
+		stack []byte
+	)
 	go func() {
 		defer close(done)
+		defer func() {
+			if p := recover(); p != nil {
+				pval, stack = p, debug.Stack()
+			}
+		}()
 		f()
 	}()
 	t := time.NewTimer(d)
 	defer t.Stop()
 	select {
 	case <-done:
+		if pval != nil {
+			// re-raise in the caller so that core.Guard attributes it to the case
+			panic(fmt.Sprintf("%v\n%s", pval, stack))
+		}
 		return true
 	case <-t.C:
 		return false
